@@ -137,3 +137,34 @@ def c13(ck):
                         ck.mismatch({"kind": "partition-dependent", "scenario": s}, "partition")
         ck.sample({"recorder": name, "events": head_lines(path, 6)})
         trace_validate(ck, "Trace_Timer", path, n, "trace-" + name)
+
+
+# ------------------------------------------------------------------- C14
+@prop("C14")
+def c14(ck):
+    thorough = ck.tier == "thorough"
+    ck.rule = ("recorded LCD histories (batches that are multiples of 4 clocks, STAT/LYC writes through the bus, start "
+               "positions set by hook in modes 0/1, all 16 STAT masks x 7 LYC values over >3 frames in random partitions) "
+               "validated event by event against Lcd.tla; non-trivial = the event changes LY/mode or raises a request")
+    jobs = [dict(module="MC_Lcd", cfg="MC_Lcd_deep" if thorough else "MC_Lcd", workers=6, coverage=True, timeout=3000),
+            dict(module="Thm_Lcd", env={"DEEP": "1"} if thorough else {}, timeout=3000)]
+    mc, thm = vlib.tlc_parallel(jobs)
+    ck.add_tlc("MC_Lcd", mc)
+    ck.require_coverage(mc, ["DoAdvance", "DoWriteSTAT", "DoWriteLYC"])
+    ck.add_tlc("Thm_Lcd", thm, mc=False)
+    scale = 20 if thorough else 1
+    for name, n in [("random", 40000 * scale), ("frames", 60000 * scale)]:
+        path = os.path.join(rundir(), "lcd_%s.ndjson" % name)
+        cnt, _ = run_to_file(["lcd-trace", "--mode", name, "--events", n], path)
+        if cnt == 0:
+            raise ToolError("empty LCD trace")
+        ck.count(cnt)
+        prev = None
+        with open(path) as f:
+            for line in f:
+                r = json.loads(line)
+                if prev is not None and (r["ly"] != prev["ly"] or r["stat"] != prev["stat"] or r["vb"] or r["st"]):
+                    ck.nontrivial_count += 1
+                prev = r
+        ck.sample({"recorder": name, "events": head_lines(path, 6)})
+        trace_validate(ck, "Trace_Lcd", path, cnt, "trace-" + name)
